@@ -458,6 +458,11 @@ static void emitCall(const CallBase *ci) {
     if (n.startswith("llvm.minnum")) { b << "  " << lhs << (rt->isFloatTy() ? "fminf(" : "fmin(") << arg(0) << ", " << arg(1) << ");\n"; return; }
     die("unsupported intrinsic " + n.str());
   }
+  if (fn && fn->isDeclaration() && fn->getName().contains("vh_typed_alloc")) {
+    Type *et = rt->getPointerElementType();
+    b << "  " << lhs << "(" << ctype(rt) << ")malloc(sizeof(" << ctype(et) << ") * " << arg(1) << ");\n";
+    return;
+  }
   if (fn && fn->isDeclaration()) {
     string n = fn->getName().str();
     if (n == "__CPROVER_assert" || n == "__CPROVER_assume" || n == "VERIF_assert" || n == "__CPROVER_cover") {
@@ -475,8 +480,25 @@ static void emitCall(const CallBase *ci) {
     if (libcFns.count(n) || StringRef(n).startswith("__CPROVER")) {
       if (optFrozen && (n == "free" || n == "realloc")) b << "  FROZEN_CHECK(" << arg(0) << ");\n";
       b << "  " << (rt->isVoidTy() ? "" : lhs + "(" + ctype(rt) + ")") << (libcFns.count(n) ? "LL_" : "") << n << "(";
+      // allocation of a constant number of bytes that is immediately viewed as T*: say sizeof(T)*k so that cbmc types the
+      // object as T[k] instead of a byte array (typed field access instead of byte_extract on every load/store)
+      int szArg = (n == "malloc") ? 0 : (n == "calloc" ? 1 : (n == "realloc" ? 1 : -1));
+      string typedSize;
+      if (szArg >= 0 && (unsigned)szArg < ci->arg_size()) if (auto *csz = dyn_cast<ConstantInt>(ci->getArgOperand(szArg))) {
+        uint64_t bytes = csz->getZExtValue();
+        if (n == "calloc") if (auto *cn = dyn_cast<ConstantInt>(ci->getArgOperand(0))) bytes *= cn->getZExtValue(); else bytes = 0;
+        uint64_t bestEs = 1;
+        for (const User *u : ci->users()) if (auto *bc = dyn_cast<BitCastInst>(u)) {
+          Type *et = bc->getType()->getPointerElementType();
+          if (!et->isSized() || et->isFunctionTy()) continue;
+          uint64_t es = DL->getTypeAllocSize(et);
+          if (es > bestEs && bytes >= es && bytes % es == 0) { bestEs = es; typedSize = "sizeof(" + ctype(et) + ") * " + std::to_string(bytes / es); }
+        }
+      }
       for (unsigned i = 0; i < ci->arg_size(); ++i) {
         if (i) b << ", ";
+        if (!typedSize.empty() && n == "calloc") { b << (i == 0 ? "1" : typedSize); continue; }
+        if (!typedSize.empty() && (int)i == szArg) { b << typedSize; continue; }
         Type *at = ci->getArgOperand(i)->getType();
         if (at->isPointerTy()) b << "(void*)" << arg(i); else b << arg(i);
       }
@@ -813,6 +835,7 @@ int main(int argc, char **argv) {
     string n = fn.getName().str();
     if (fn.isDeclaration() && (libcFns.count(n) || StringRef(n).startswith("__CPROVER"))) continue;
     if (fn.isDeclaration() && fn.isVarArg()) continue;
+    if (fn.isDeclaration() && fn.getName().contains("vh_typed_alloc")) continue;
     out << fnProto(fn) << ";\n";
   }
   out << "\n";
